@@ -286,18 +286,20 @@ theorem unlockDecision_nofuel (s : State) (idx : Nat) (e : KV) : unlockDecision 
 theorem kvLockTxn_nofuel (s : State) (idx : Nat) (e : KV) : kvLockTxn s idx e â‰  .error .fuel := by
   intro hr; simp only [kvLockTxn] at hr
   repeat' (split at hr)
-  all_goals (first | (simp at hr; done)
-    | (simp at hr; subst hr; first
+  all_goals (first
+    | (simp at hr; done)
+    | (simp at hr; subst hr; (first
         | exact lockDecision_nofuel _ _ _ (by assumption)
-        | exact kvSetTxn_nofuel _ _ _ _ (by assumption)))
+        | exact kvSetTxn_nofuel _ _ _ _ (by assumption))))
 
 theorem kvUnlockTxn_nofuel (s : State) (idx : Nat) (e : KV) : kvUnlockTxn s idx e â‰  .error .fuel := by
   intro hr; simp only [kvUnlockTxn] at hr
   repeat' (split at hr)
-  all_goals (first | (simp at hr; done)
-    | (simp at hr; subst hr; first
+  all_goals (first
+    | (simp at hr; done)
+    | (simp at hr; subst hr; (first
         | exact unlockDecision_nofuel _ _ _ (by assumption)
-        | exact kvSetTxn_nofuel _ _ _ _ (by assumption)))
+        | exact kvSetTxn_nofuel _ _ _ _ (by assumption))))
 
 theorem kvGet_nofuel (s : State) (k : Key) : kvGet s k â‰  .error .fuel := by
   intro hr; simp only [kvGet] at hr; split at hr <;> simp at hr
@@ -353,30 +355,48 @@ theorem txnStep_nofuel (s : State) (idx : Nat) (op : TxnOp) : txnStep s idx op â
   | kv v e =>
     simp only [txnStep, txnKV] at hr
     cases v <;> simp only [okRes] at hr <;> repeat' (split at hr)
-    all_goals (first | (simp at hr; done) | (simp at hr; subst hr; first
-      | exact kvSetTxn_nofuel _ _ _ _ (by assumption) | exact kvDeleteTxn_nofuel _ _ _ (by assumption)
-      | exact kvDeleteCasTxn_nofuel _ _ _ _ (by assumption) | exact kvSetCasTxn_nofuel _ _ _ (by assumption)
-      | exact kvLockTxn_nofuel _ _ _ (by assumption) | exact kvUnlockTxn_nofuel _ _ _ (by assumption)
-      | exact kvGet_nofuel _ _ (by assumption) | exact kvCheckSession_nofuel _ _ _ (by assumption)
-      | exact kvCheckIndex_nofuel _ _ _ (by assumption)))
+    all_goals (first
+      | (simp at hr; done)
+      | (simp at hr; subst hr; (first
+          | exact kvSetTxn_nofuel _ _ _ _ (by assumption)
+          | exact kvDeleteTxn_nofuel _ _ _ (by assumption)
+          | exact kvDeleteCasTxn_nofuel _ _ _ _ (by assumption)
+          | exact kvSetCasTxn_nofuel _ _ _ (by assumption)
+          | exact kvLockTxn_nofuel _ _ _ (by assumption)
+          | exact kvUnlockTxn_nofuel _ _ _ (by assumption)
+          | exact kvGet_nofuel _ _ (by assumption)
+          | exact kvCheckSession_nofuel _ _ _ (by assumption)
+          | exact kvCheckIndex_nofuel _ _ _ (by assumption))))
   | node v n =>
     simp only [txnStep, txnNode] at hr
     cases v <;> simp only [okRes] at hr <;> repeat' (split at hr)
-    all_goals (first | (simp at hr; done) | (simp at hr; subst hr; first
-      | exact ensureNode_nofuel _ _ _ (by assumption) | exact deleteNode_nofuel _ _ _ (by assumption)
-      | exact ensureNodeCas_nofuel _ _ _ (by assumption) | exact deleteNodeCas_nofuel _ _ _ _ (by assumption)))
+    all_goals (first
+      | (simp at hr; done)
+      | (simp at hr; subst hr; (first
+          | exact ensureNode_nofuel _ _ _ (by assumption)
+          | exact deleteNode_nofuel _ _ _ (by assumption)
+          | exact ensureNodeCas_nofuel _ _ _ (by assumption)
+          | exact deleteNodeCas_nofuel _ _ _ _ (by assumption))))
   | service v x =>
     simp only [txnStep, txnService] at hr
     cases v <;> simp only [okRes] at hr <;> repeat' (split at hr)
-    all_goals (first | (simp at hr; done) | (simp at hr; subst hr; first
-      | exact ensureService_nofuel _ _ _ (by assumption) | exact deleteService_nofuel _ _ _ _ (by assumption)
-      | exact ensureServiceCas_nofuel _ _ _ (by assumption) | exact deleteServiceCas_nofuel _ _ _ _ _ (by assumption)))
+    all_goals (first
+      | (simp at hr; done)
+      | (simp at hr; subst hr; (first
+          | exact ensureService_nofuel _ _ _ (by assumption)
+          | exact deleteService_nofuel _ _ _ _ (by assumption)
+          | exact ensureServiceCas_nofuel _ _ _ (by assumption)
+          | exact deleteServiceCas_nofuel _ _ _ _ _ (by assumption))))
   | check v c =>
     simp only [txnStep, txnCheck] at hr
     cases v <;> simp only [okRes] at hr <;> repeat' (split at hr)
-    all_goals (first | (simp at hr; done) | (simp at hr; subst hr; first
-      | exact ensureCheck_never_fuel _ _ _ _ (by assumption) | exact deleteCheck_nofuel _ _ _ _ (by assumption)
-      | exact ensureCheckCas_nofuel _ _ _ (by assumption) | exact deleteCheckCas_nofuel _ _ _ _ _ (by assumption)))
+    all_goals (first
+      | (simp at hr; done)
+      | (simp at hr; subst hr; (first
+          | exact ensureCheck_never_fuel _ _ _ _ (by assumption)
+          | exact deleteCheck_nofuel _ _ _ _ (by assumption)
+          | exact ensureCheckCas_nofuel _ _ _ (by assumption)
+          | exact deleteCheckCas_nofuel _ _ _ _ _ (by assumption))))
   | sessionDelete id =>
     simp only [txnStep, okRes] at hr
     split at hr
